@@ -12,4 +12,6 @@ for gm in glob.glob(os.path.join(ROOT, "work", "harness-*", "go.mod")):
             os.remove(b)
         for l in glob.glob(os.path.join(ROOT, "work", "go" + tag + ".lock")):
             os.remove(l)
+        for o in glob.glob(os.path.join(ROOT, "work", "C??-*" + tag)):
+            shutil.rmtree(o, ignore_errors=True)
 print("cleanwork: removed %d stale harness copies" % n)
